@@ -8,6 +8,7 @@ import time
 from . import vf
 
 KNOWN = os.path.join(vf.VERIF, "known_findings.txt")
+MAX_TRACED = int(os.environ.get("VERIF_MAX_TRACED", "12"))
 
 GLOBAL_ASSUMPTIONS = [
     "CBMC 6.11.0 (goto-cc front end, goto-instrument --dfcc contract instrumentation, SAT back end) is sound for the C subset used; x86-64 LP64 little-endian data model",
@@ -133,6 +134,7 @@ def finish(prop, tier, seed, results, wall, write_evidence=True):
     known, fixed = parse_known()
     os.makedirs(vf.REPLAY, exist_ok=True)
     violations, known_hits, infra = [], [], []
+    traced = 0
     for r in results:
         if r.status == "error":
             infra.append(r)
@@ -150,7 +152,10 @@ def finish(prop, tier, seed, results, wall, write_evidence=True):
             seen.add(key)
             trace = None
             inputs = fail.get("input") if r.job.kind == "native" else None
-            if r.job.kind == "cbmc":
+            # counterexample extraction re-runs the verifier for the failed obligation; it is done for the first
+            # MAX_TRACED failures of a run (every further one is still reported, with the verifier output only)
+            if r.job.kind == "cbmc" and traced < MAX_TRACED:
+                traced += 1
                 trace = vf.get_trace(r.job, r, fail)
                 inputs = vf.trace_inputs(trace) if trace else None
             k = match_known(known, prop, r.job, fail, inputs if isinstance(inputs, dict) else {})
@@ -158,8 +163,10 @@ def finish(prop, tier, seed, results, wall, write_evidence=True):
                 known_hits.append((r, fail, k))
                 continue
             wd = os.path.dirname(r.log)
-            if r.job.kind == "cbmc":
+            if r.job.kind == "cbmc" and (trace is not None or traced < MAX_TRACED):
                 rep = native_replay(r.job, fail, inputs, wd)
+            elif r.job.kind == "cbmc":
+                rep = {"reproduced": None, "output": "counterexample not extracted (more than %d failed obligations in this run)" % MAX_TRACED, "cmd": ""}
             else:
                 rep = {"reproduced": True, "output": str(inputs), "cmd": r.cmd}
             path = os.path.join(vf.REPLAY, "%s-%s-%s.json" % (prop, safe(r.job.name), safe(fail["id"])))
